@@ -9,7 +9,8 @@ RULE = ("seeded swarm of account histories with repeated rebalances under thresh
         "whole-lot mode, weight and number-of-contract measures; 25% of runs live in an exactly-dyadic world (deposit 2^20, "
         "power-of-two prices and multipliers, dyadic weights and thresholds) where 'exactly at the threshold' is exact in "
         "floating point; after every rebalance the emitted trade set and quantities are compared with the set predicted "
-        "from the observable pre-state by the exact model. Non-trivial: >=1 rebalance and >=1 probe; distinct abstract "
+        "from the observable pre-state by the exact model. One run in six goes through TradingEnv with the threshold and lot mode "
+        "configured on a continuous portfolio space in weights or number-of-contract mode. Non-trivial: >=1 rebalance and >=1 probe; distinct abstract "
         "traces among those")
 ASSUMPTIONS = [
     "outside the dyadic world, cases within 1e-9 relative of a strict/non-strict boundary (threshold, integer lot, zero imbalance) are not classified",
@@ -18,7 +19,8 @@ ASSUMPTIONS = [
 COMPONENTS = {"real": ["Exchange", "Broker", "Rebalancing.make_trades", "Weights/NrContracts", "Trade", "contracts"],
               "harness": ["user-defined AbstractContract subclasses", "Fraction filter model"], "stub": []}
 PROBE_FLOORS = {"exact_threshold_emit": 5, "below_threshold_skip": 50, "liquidation_below_threshold": 10,
-                "sublot_skip": 30, "negative_truncation": 20}
+                "sublot_skip": 30, "negative_truncation": 20, "env_below_threshold_skip": 100,
+                "env_at_or_above_threshold_emit": 300}
 
 PROFILE = {
     "oracles": ["c12"],
@@ -32,14 +34,23 @@ PROFILE = {
 
 
 def generate(rng, i):
+    if i % 6 == 5:
+        from tesim.props import c12_epi
+        return c12_epi.generate(rng, i)
     return gen_acct.generate(rng, PROFILE)
 
 
 def execute(scenario):
+    if scenario.get("kind") == "epi":
+        from tesim.props import c12_epi
+        return c12_epi.execute(scenario)
     return acct.execute(scenario, PROP)
 
 
 def describe(scenario):
+    if scenario.get("kind") == "epi":
+        from tesim import gen_epi
+        return gen_epi.describe(scenario)
     return gen_acct.describe(scenario)
 
 
@@ -47,4 +58,11 @@ def shrink_paths(scenario):
     return [("script",)]
 
 
-from tesim.props.c01 import simplify  # noqa: E402,F401
+from tesim.props.c01 import simplify as _simplify_acct  # noqa: E402
+
+
+def simplify(scenario):
+    if scenario.get("kind") == "epi":
+        return
+    for c in _simplify_acct(scenario):
+        yield c
